@@ -344,3 +344,17 @@ def lemmas(tier, seed):
          "detail": f"new call site(s) into dynamic import / inspection: {new_calls} -- needs a dead-site contract before C15 can be decided",
          "covered": sorted(calls)},
     ]
+
+
+def bounded_checks(tier, seed):
+    import json, os, subprocess, time
+    from pyvc.run import VERIF, VENV_PY, REPO_SRC
+    t0 = time.time()
+    r = subprocess.run([VENV_PY, "-m", "replay.C15"], capture_output=True, text=True, cwd=str(VERIF), env=dict(os.environ, PYTHONPATH=str(REPO_SRC)), timeout=900)
+    if r.returncode != 0:
+        raise RuntimeError("bounded C15 scenarios crashed: " + r.stderr[-1500:])
+    d = json.loads(r.stdout.strip().splitlines()[-1])
+    return [{"check": "native_scenarios", "tool": "real loads with markers: side-effecting sources, compiled and source-less modules, missing packages (inspection disallowed: marker "
+             "files, sys.modules, sys.path, execution sites spied on); modules that raise / exit / rebind sys.path at import time under inspection; sys_path() under every "
+             "exception class", "bound": "4 scenario families, about 60 loads / imports", "cases": d["cases"], "failing": len(d["bad"]), "wall_s": round(time.time() - t0, 1),
+             "violations": d["bad"]}]
